@@ -230,6 +230,11 @@ class TE:
             args = []
             for a, pty in zip(e.args, ptys):
                 args.append(self.as_int(a) if pty == 'int' else self.rat(self.expr(a)))
+            if rty == 'int?':       # a translated function that may raise: hoisted like a list access (`none` propagates)
+                self.ntmp[0] += 1
+                tmp = f'v{self.ntmp[0]}_'
+                self.binds.append((tmp, ' '.join([name] + args)))
+                return tmp, 'int'
             return '(' + ' '.join([name] + args) + ')', rty
         if f in HELPERS and f not in self.env:
             return self.inline(HELPERS[f], e)
@@ -724,6 +729,118 @@ def compile_scalar_fn(fn, lean_name, funcs, ty):
     return f'def {lean_name} ({p}_ : {T}) : {T} :=\n  {term}\n'
 
 
+# ------------------------------------------------------------------------------------------------
+# nm_to_name: strings -> structure codes (kind, ordinal, column, suffix), then compiled like an index map
+# ------------------------------------------------------------------------------------------------
+_COL = 1000000          # tag of a column-name code (`_names_m.get(k, f'{k}-foil')` |-> k + _COL; 'Tilt' |-> _COL - 1)
+_SUF = 2000000          # tag of a suffix code
+_SUFFIX_CODE = {'X': 0, 'Y': 1, '00°': 2, '45°': 3}
+_CONST_NAMES = {'Piston': (0, 0, 0, 4), 'Defocus': (2, 0, 0, 4), 'Tilt X': (1, 0, 1, 0), 'Tilt Y': (1, 0, 1, 1)}
+
+
+def _int_tuple(vals):
+    return ast.Tuple(elts=[v if isinstance(v, ast.AST) else ast.Constant(value=v) for v in vals], ctx=ast.Load())
+
+
+def _table_get(e, table, tail):
+    """`table.get(X, f'{X}<tail>')` -> X (else None)"""
+    if isinstance(e, ast.Call) and isinstance(e.func, ast.Attribute) and e.func.attr == 'get' and not e.keywords \
+            and isinstance(e.func.value, ast.Name) and e.func.value.id == table and len(e.args) == 2:
+        x, d = e.args
+        if isinstance(d, ast.JoinedStr) and len(d.values) == 2 and isinstance(d.values[0], ast.FormattedValue) \
+                and d.values[0].conversion == -1 and d.values[0].format_spec is None \
+                and isinstance(d.values[1], ast.Constant) and d.values[1].value == tail \
+                and ast.dump(d.values[0].value) == ast.dump(x):
+            return x
+    return None
+
+
+def _fstring_parts(e):
+    """f'{a} {b} {c}' -> ['a-node', ' ', ...] as a list of nodes / literal strings"""
+    out = []
+    for v in e.values:
+        if isinstance(v, ast.Constant) and isinstance(v.value, str):
+            out.append(v.value)
+        elif isinstance(v, ast.FormattedValue) and v.conversion == -1 and v.format_spec is None:
+            out.append(v.value)
+        else:
+            raise Untranslatable('format specification in a name')
+    return out
+
+
+def names_as_codes(fn, helpers, depth=0):
+    """copy of `fn` in which every string is replaced by its structure code; `return helper(args)` of a same-module
+    string helper is inlined (parameters renamed to the argument names)"""
+    def sub(a, b):
+        return ast.BinOp(left=a, op=ast.Sub(), right=ast.Constant(value=b))
+
+    def add(a, b):
+        return ast.BinOp(left=a, op=ast.Add(), right=ast.Constant(value=b))
+
+    def value(e):
+        if isinstance(e, ast.Constant) and isinstance(e.value, str):
+            if e.value in _SUFFIX_CODE:
+                return ast.Constant(value=_SUF + _SUFFIX_CODE[e.value])
+            if e.value == 'Tilt':
+                return ast.Constant(value=_COL - 1)
+            raise Untranslatable(f'string {e.value!r} is not a known part of a name')
+        x = _table_get(e, '_names', 'th')
+        if x is not None:
+            return x
+        x = _table_get(e, '_names_m', '-foil')
+        if x is not None:
+            return add(x, _COL)
+        if any(isinstance(n, (ast.JoinedStr, ast.Constant)) and isinstance(getattr(n, 'value', None), str) for n in ast.walk(e)) \
+                or any(isinstance(n, ast.JoinedStr) for n in ast.walk(e)):
+            raise Untranslatable(f'string expression {ast.unparse(e)[:50]}')
+        return e
+
+    def ret(e):
+        if isinstance(e, ast.Constant) and isinstance(e.value, str):
+            if e.value not in _CONST_NAMES:
+                raise Untranslatable(f'name {e.value!r} has no structure code')
+            return [ast.Return(value=_int_tuple(_CONST_NAMES[e.value]))]
+        if isinstance(e, ast.JoinedStr):
+            ps = _fstring_parts(e)
+            if len(ps) == 2 and ps[1] == ' Spherical' and not isinstance(ps[0], str):
+                return [ast.Return(value=_int_tuple([3, ps[0], 0, 4]))]
+            if len(ps) == 5 and ps[1] == ' ' and ps[3] == ' ' and not any(isinstance(ps[i], str) for i in (0, 2, 4)):
+                return [ast.Return(value=_int_tuple([4, ps[0], sub(ps[2], _COL), sub(ps[4], _SUF)]))]
+            raise Untranslatable(f'name pattern {ast.unparse(e)}')
+        if isinstance(e, ast.Call) and isinstance(e.func, ast.Name) and e.func.id in helpers and depth < 3 and not e.keywords:
+            h = helpers[e.func.id]
+            ps = [a.arg for a in h.args.args]
+            if len(ps) != len(e.args) or not all(isinstance(a, ast.Name) for a in e.args) or h.args.defaults or h.decorator_list:
+                raise Untranslatable(f'call {ast.unparse(e)}')
+            ren = {p: a.id for p, a in zip(ps, e.args)}
+            body = names_as_codes(h, helpers, depth + 1).body
+
+            class R(ast.NodeTransformer):
+                def visit_Name(self, n):
+                    return ast.copy_location(ast.Name(id=ren.get(n.id, n.id), ctx=n.ctx), n)
+            return [R().visit(st) for st in body]
+        raise Untranslatable(f'returned name {ast.unparse(e)[:50]}')
+
+    def stmts(body):
+        out = []
+        for st in body:
+            if isinstance(st, ast.Expr) and isinstance(st.value, ast.Constant):
+                continue
+            if isinstance(st, ast.Return):
+                out += ret(st.value)
+            elif isinstance(st, ast.Assign):
+                out.append(ast.Assign(targets=st.targets, value=value(st.value), lineno=0))
+            elif isinstance(st, ast.If):
+                out.append(ast.If(test=st.test, body=stmts(st.body), orelse=stmts(st.orelse)))
+            else:
+                raise Untranslatable(f'statement {ast.unparse(st)[:50]}')
+        return out
+    import copy
+    new = copy.deepcopy(fn)
+    new.body = stmts(new.body)
+    return ast.fix_missing_locations(new)
+
+
 def generate(repo):
     g = Gen('C11', imports=['PrysmVerif.PyPrelude', 'PrysmVerif.Model.C11'], opens=['Model.C11'],
             header='set_option linter.unusedVariables false')
@@ -795,6 +912,22 @@ def generate(repo):
         return f'def sphericalAccessor {" ".join(f"({q}_ : Int)" for q in params)} : Int :=\n  {term}\n'
     g.item('spherical_accessor', 'prysm/polynomials/zernike.py:nm_to_name', find_sph, build_sph,
            f'def sphericalAccessor (n_ m_ : Int) : Int := {M}.sphericalAccessor n_')
+
+    def build_namekey():
+        fn = get_def(zk, 'nm_to_name')
+        helpers = _module_helpers(zk)
+        coded = names_as_codes(fn, helpers)
+        HELPERS.clear()
+        HELPERS.update({'_name_accessor': helpers['_name_accessor']} if '_name_accessor' in helpers else {})
+        try:
+            f2 = dict(funcs)
+            f2['_name_accessor'] = ('nameAccessor', ['int', 'int'], 'int?')
+            return compile_fn(coded, 'nameKey', f2)
+        finally:
+            HELPERS.clear()
+    g.item('nm_to_name', 'prysm/polynomials/zernike.py:nm_to_name, _name_helper',
+           lambda: ast.Module(body=[get_def(zk, 'nm_to_name'), get_def(zk, '_name_helper')], type_ignores=[]), build_namekey,
+           f'def nameKey (n_ m_ : Int) : Option (Int × Int × Int × Int) := some ({M}.nameKey n_ m_)')
 
     def find_loop():
         fn = get_def(zk, 'zernikes_to_magnitude_angle_nmkey')
